@@ -102,7 +102,7 @@ def _where(where):
     if isinstance(where, tuple):
         if len(where) == 2 and hasattr(where[0], "qualname"):
             fn, node = where
-            return fn.module.path, fn.qualname, getattr(node, "lineno", None)
+            return fn.module.path, fn.qualname, getattr(node, "_orig_lineno", getattr(node, "lineno", None))
         if len(where) == 2:
             return where[0], where[1], None
         return where
